@@ -1326,7 +1326,7 @@ func c20Corpus() []*c20Case {
 func cmdC20(seed int64, tier, outDir string) {
 	n1, n2, nm := 600, 300, 60
 	if tier == "thorough" {
-		n1, n2, nm = 40000, 18000, 2000
+		n1, n2, nm = 18000, 9000, 1800
 	}
 	perShard := 61 // 16 shards in the quick tier: one per worker of tools/check.py
 	if tier == "thorough" {
